@@ -252,6 +252,19 @@ theorem C04_groups {α κ : Type} [DecidableEq κ] (f : α → κ) (xs : List α
     simp only [List.length_map, List.length_range'] at h1
     simp [ho, h1]
 
+/-- one group per distinct key value; every item belongs to exactly the group of its key -/
+theorem C04_partition {α κ : Type} [DecidableEq κ] (f : α → κ) (xs : List α) :
+    (keysOf f xs).Nodup ∧ (∀ k, k ∈ keysOf f xs ↔ ∃ x ∈ xs, f x = k) ∧
+    (∀ x ∈ xs, ∀ k ∈ keysOf f xs, x ∈ xs.filter (fun y => f y = k) ↔ f x = k) := by
+  refine ⟨keysOf_nodup f xs, mem_keysOf f xs, ?_⟩
+  intro x hx k _
+  simp [hx]
+
+/-- keys are numbered in order of first appearance: a new key is appended, a known key changes nothing -/
+theorem C04_first_appearance {α κ : Type} [DecidableEq κ] (f : α → κ) (xs : List α) (x : α) :
+    keysOf f (xs ++ [x]) = if f x ∈ keysOf f xs then keysOf f xs else keysOf f xs ++ [f x] :=
+  keysOf_snoc f xs x
+
 /-! non-vacuity -/
 example : (groupByLS (fun n : Nat => n % 2)).windows [1, 2, 3, 4, 5] = ([], [[1, 3, 5], [2, 4]]) := by decide
 
